@@ -69,6 +69,22 @@ func hookFn(h int) bexpr.ValueTransformationHookFn {
 		}
 	case HookConst:
 		return func(v reflect.Value) reflect.Value { return reflect.ValueOf(42) }
+	case HookSwap:
+		return func(v reflect.Value) reflect.Value {
+			x := v
+			for x.IsValid() && x.Kind() == reflect.Interface && !x.IsNil() {
+				x = x.Elem()
+			}
+			if x.IsValid() && x.Kind() == reflect.Int {
+				switch x.Int() {
+				case 1:
+					return reflect.ValueOf(2)
+				case 2:
+					return reflect.ValueOf(1)
+				}
+			}
+			return v
+		}
 	}
 	return nil
 }
